@@ -5,7 +5,9 @@
 
   `simple p`: numbers (written exponent below 10⁸), names, unary signs, `*`, `/`, parentheses,
   and powers whose exponent is an integer literal of magnitude ≤ 64 — no `sqrt`, no fractional
-  or symbolic exponents, no towers.  Everything the listed escapes (`lat**0.5`, `(-8)**(1/3)`,
+  or symbolic exponents, no towers.  (The guard is much wider than the recorded findings: it also
+  excludes every `sqrt(…)` and every fractional power, i.e. most printed units with roots; for
+  those, absence of escapes rests on the correspondence run and the direct oracle only.)  Everything the listed escapes (`lat**0.5`, `(-8)**(1/3)`,
   `m**(2*s)`, `9**9**9**9`, `1e999999999`) need is outside.
 -/
 import UnytModel.Parse
@@ -22,7 +24,7 @@ def intLit : PExpr → Bool
 
 def simple : PExpr → Bool
   | .num _ e => e.natAbs < 10 ^ 8
-  | .name _ => true
+  | .name s => !(globalTypes.contains (s.map Char.toNat))     -- not a class name of `global_dict`
   | .neg e => simple e
   | .pos e => simple e
   | .mul a b => simple a && simple b
